@@ -230,7 +230,8 @@ def _build_attr(desc: typing.Any) -> typing.Any:
     if desc["k"] == "pad":
         return pydsdl.PaddingField(pydsdl.VoidType(desc["n"]))
     v = desc["value"]
-    val = pydsdl.Boolean(v[1]) if v[0] == "bool" else pydsdl.Rational(Fraction(v[1], v[2]))
+    # ("chr": the character-literal spelling of an 8-bit constant; the constant's value is the code point either way)
+    val = pydsdl.Boolean(v[1]) if v[0] == "bool" else pydsdl.String(chr(v[1])) if v[0] == "chr" else pydsdl.Rational(Fraction(v[1], v[2]))
     return pydsdl.Constant(t, desc["name"], val)
 
 
@@ -242,7 +243,7 @@ def check_attributes(case: typing.Any, ctx: Ctx) -> Info:
     _contract(a, b, "attribute", detail)
     def key(dd: typing.Any) -> typing.Any:
         v = dd.get("value")
-        vk = None if v is None else (("bool", v[1]) if v[0] == "bool" else ("rat", Fraction(v[1], v[2])))
+        vk = None if v is None else (("bool", v[1]) if v[0] == "bool" else ("rat", Fraction(v[1])) if v[0] == "chr" else ("rat", Fraction(v[1], v[2])))
         tk = None if dd["k"] == "pad" else _model_key(layout.freeze(dd["type"]))[1:]
         return (dd["k"], dd.get("name"), dd.get("n"), tk, vk)
 
@@ -388,12 +389,29 @@ def parts(ctx: Ctx) -> typing.List[Part]:
             st.tuples(value, names).map(
                 lambda t: {"k": "const", "type": ["bool"] if t[0][0] == "bool" else (["float", 64, "sat"] if t[0][2] != 1 else ["int", 8]), "name": t[1], "value": t[0]}
             ),
+            # the same 8-bit constant spelled as a number and as a character literal
+            st.tuples(st.sampled_from([44, 65, 97]), st.booleans(), names, st.sampled_from(["sat", "sat", "trunc"])).map(
+                lambda t: {"k": "const", "type": ["uint", 8, t[3]], "name": t[2], "value": ["chr", t[0]] if t[1] else ["rat", t[0], 1]}
+            ),
         )
 
     # pairs of the same class (the statement quantifies over those; a Field and a Constant of equal type and name compare equal by
     # design of Attribute.__eq__ and are not asserted either way)
+    def respell(a: typing.Any) -> typing.Any:
+        """The same attribute from a different spelling of its value (number <-> character literal, 2/2 <-> 1/1)."""
+        b = copy.deepcopy(a)
+        v = b.get("value")
+        if v is not None and v[0] == "chr":
+            b["value"] = ["rat", v[1], 1]
+        elif v is not None and v[0] == "rat" and b["type"][:2] == ["uint", 8] and v[2] == 1 and 0 <= v[1] < 128:
+            b["value"] = ["chr", v[1]]
+        elif v is not None and v[0] == "rat":
+            b["value"] = ["rat", v[1] * 2, v[2] * 2]
+        return b
+
     attr_cases = st.one_of(
         attr().map(lambda a: {"a": a, "b": copy.deepcopy(a)}),
+        attr().map(lambda a: {"a": a, "b": respell(a)}),
         st.tuples(attr(), attr()).filter(lambda t: t[0]["k"] == t[1]["k"]).map(lambda t: {"a": t[0], "b": t[1]}),
     )
 
